@@ -135,6 +135,19 @@ namespace sim
               g.z_max = w.radius;
               g.z_min = w.radius * rng.real(0.3, 0.8);
             }
+          if (g.type == "cartesian" && !w.feature_names.empty() && w.feature_names[0] == "slow slab" && w.has_cs)
+            {
+              // the grid covers the slab down to where the library starts refusing nodes
+              g.x_min = g.dim == 2 ? 0.0 : w.cs[0][0];
+              g.x_max = g.dim == 2 ? 900e3 : w.cs[1][0];
+              g.y_min = 0;
+              g.y_max = 100e3;
+              g.z_min = 0;
+              g.z_max = rng.real(450e3, 600e3);
+              g.nx = static_cast<int>(rng.range(8, 14));
+              g.ny = static_cast<int>(rng.range(1, 2));
+              g.nz = static_cast<int>(rng.range(10, 16));
+            }
           if (g.nodes() <= max_nodes && g.nodes() >= 1)
             break;
           // too large: shrink the counts and retry
@@ -205,6 +218,19 @@ namespace sim
             {
               w = cat[ok[rng.below(ok.size())]];
               origin = "corpus";
+            }
+          else if (rng.chance(0.12))
+            {
+              GenWorld g = gen_refusing_world(rng);
+              w = analyse_world("gen.wb", g.json);
+              origin = "refusing";
+            }
+          else if (rng.chance(0.25))
+            {
+              // area features with depth surfaces: now and then the library refuses a node of such a world
+              GenWorld g = gen_surface_world(rng);
+              w = analyse_world("gen.wb", g.json);
+              origin = "surface";
             }
           else
             {
@@ -389,6 +415,7 @@ namespace sim
     const int rows = static_cast<int>(tier == "thorough" ? rng.range(1, 60) : rng.range(1, 25));
     // sometimes the points sit on a coarse integer lattice (whole degrees, whole kilometres), with repeats
     const bool integer_rows = rng.chance(0.2);
+    const double shared_k = static_cast<double>(rng.below(4)) * 10.0; // all integer rows of a file share radius and depth
     for (int i = 0; i < rows; ++i)
       {
         ProbePoint pp = probe_point(w, rng);
@@ -402,7 +429,8 @@ namespace sim
               }
             else if (convert)
               {
-                const double rr = std::round((w.radius - small[rng.below(10)] * 1000.0));
+                const double rr = std::round((w.radius - shared_k * 1000.0));
+                pp.depth = shared_k * 1000.0;
                 const double lon = small[rng.below(8)] * M_PI / 180.0, lat = small[rng.below(6)] * M_PI / 180.0;
                 pp.p3[0] = rr * std::cos(lat) * std::cos(lon);
                 pp.p3[1] = rr * std::cos(lat) * std::sin(lon);
@@ -411,7 +439,8 @@ namespace sim
             else
               for (int k = 0; k < 3; ++k)
                 pp.p3[k] = std::round(pp.p3[k] / 1000.0) * 1000.0;
-            pp.depth = std::round(pp.depth / 1000.0) * 1000.0;
+            if (!convert)
+              pp.depth = std::round(pp.depth / 1000.0) * 1000.0;
           }
         std::vector<std::string> f;
         if (dim == 2)
